@@ -210,18 +210,24 @@ EXTRA_TEXT = {
     "C05": " PUSH/POP/CALL r/m operands addressed through RSP are judged here as well.",
     "C06": " Guest accesses after shrink / regrow / re-protect histories are judged through Memory.tla (the mapping a fault depends on is a "
            "product of the machine's history)." + PROG,
-    "C08": " Histories include mem_resize_section: accesses inside / across / beyond the new end of a shrunk area on every path, and the "
-           "regrown tail must read zero.",
+    "C08": " Histories include mem_resize_section: accesses inside / across / beyond the new end of a shrunk area on every path, the "
+           "regrown tail must read zero, a new area in a freed tail and an area around an emptied one are stores of their own; 'anywhere' "
+           "blocks are written and read back; compare / test with an immediate must write nothing.",
     "C09": " Also: execute permission revoked and re-granted between fetches from the same area, and accesses straddling two abutting areas "
-           "with different masks (PUSH/CALL slots under either stack convention must lie in ONE writable area).",
+           "with different masks (PUSH/CALL slots under either stack convention must lie in ONE writable area), stores made through the API "
+           "from inside a hook, and page-filling ELF segments (the loaded areas are checked against the flags written into the file).",
     "C10": " For unbounded addresses and lengths, Apalache discharges NoOverlap as an INDUCTIVE invariant of the same allocation rules "
            "(AllocInd.tla: Init => IndInv, IndInv /\\ Next => IndInv'; a resize rule without the collision test is refuted).",
     "C11": " The stack-empty test of a top-level RET is about the stack pointer (Exec.tla's depth = stack height, POP in the model alphabet, "
            "projection of the logged RSP in trace validation); execute() on a machine whose next step is refused must be refused too." + PROG,
     "C12": " Hooked instructions that FAIL are followed by further instructions of the mnemonic, or by a repair and a second execution: the "
            "hooks must still run.",
-    "C15": " Symbols are generated with all kinds NOTYPE/OBJECT/FUNC/GNU_IFUNC x LOCAL/GLOBAL/WEAK, section-relative and absolute.",
-    "C16": " A third base file carries PT_TLS / PT_GNU_RELRO / PT_GNU_STACK headers so that their fields are mutated too (header index up to 4).",
+    "C15": " Symbols are generated with all kinds NOTYPE/OBJECT/FUNC/GNU_IFUNC x LOCAL/GLOBAL/WEAK, section-relative and absolute; size classes "
+           "include segments without file content and segments whose virtual address is not page aligned (one of them running into the next "
+           "page); TLS / RELRO / NOTE / GNU_STACK headers refer to the first segment whatever its flags.",
+    "C16": " Further base files carry PT_TLS (over an area and in the middle of one) / PT_GNU_RELRO / PT_GNU_STACK / PT_INTERP (empty, one byte, "
+           "a path) / PT_DYNAMIC headers and a symbol table with long, non-ASCII and non-UTF-8 names, so that those fields are mutated too "
+           "(header index up to 4).",
     "C18": PROG,
     "C19": " Register states include tiny (0..16) and huge (2^64-16..) values for indirect branch targets and addresses.",
     "C20": " Partially written registers: seeded programs run on two machines with only a subset of the registers written (a random 10-80 %, "
